@@ -6,7 +6,7 @@ use crate::model::verify::{provider_outcome, ProvOutcome};
 use crate::types::*;
 use bytes::Bytes;
 use chrono::{DateTime, NaiveDate, Utc};
-use scratchstack_aws_principal::{AssumedRole, Principal, PrincipalIdentity, Service as SvcPrincipal, SessionData, SessionValue, User};
+use scratchstack_aws_principal::{AssumedRole, CanonicalUser, FederatedUser, Principal, PrincipalIdentity, RootUser, Service as SvcPrincipal, SessionData, SessionValue, User};
 use scratchstack_aws_signature::{
     sigv4_validate_request, GetSigningKeyRequest, GetSigningKeyResponse, KSecretKey, SignatureError, SignatureOptions,
     SignedHeaderRequirements, SliceSignedHeaderRequirements, VecSignedHeaderRequirements,
@@ -121,20 +121,40 @@ pub fn kind_of(e: &SignatureError) -> Kind {
     }
 }
 
+/// every stable io::ErrorKind a key store could plausibly report
+pub const IO_KINDS: [std::io::ErrorKind; 24] = {
+    use std::io::ErrorKind::*;
+    [
+        Other, NotFound, PermissionDenied, ConnectionReset, UnexpectedEof, TimedOut, WouldBlock, Interrupted, BrokenPipe, InvalidData, ConnectionRefused,
+        ConnectionAborted, NotConnected, AddrInUse, AddrNotAvailable, AlreadyExists, InvalidInput, WriteZero, Unsupported, OutOfMemory, HostUnreachable,
+        NetworkUnreachable, NetworkDown, ResourceBusy,
+    ]
+};
+
 pub fn make_sig_err(k: Kind, msg: &str) -> SignatureError {
     let m = msg.to_string();
     match k {
         Kind::ExpiredToken => SignatureError::ExpiredToken(m),
         Kind::IO => {
             // the io::ErrorKind varies with the message so that every kind is exercised
-            use std::io::ErrorKind::*;
-            const KINDS: [std::io::ErrorKind; 10] = [Other, NotFound, PermissionDenied, ConnectionReset, UnexpectedEof, TimedOut, WouldBlock, Interrupted, BrokenPipe, InvalidData];
             // "... (n)" at the end of the message selects the kind explicitly; otherwise it follows a digest of the message
             let explicit = m.strip_suffix(')').and_then(|x| x.rsplit_once('(')).and_then(|(_, n)| n.parse::<usize>().ok());
-            let k = KINDS[explicit.unwrap_or((crate::model::crypto::fnv64(m.as_bytes()) % 10) as usize) % 10];
+            let k = IO_KINDS[explicit.unwrap_or((crate::model::crypto::fnv64(m.as_bytes()) % IO_KINDS.len() as u64) as usize) % IO_KINDS.len()];
             SignatureError::IO(std::io::Error::new(k, m))
         }
-        Kind::InternalServiceError => SignatureError::InternalServiceError(m.into()),
+        Kind::InternalServiceError => {
+            // what a layered key service wraps: a message, another SignatureError (of a 4xx kind, or an
+            // internal error again), an io::Error -- selected by the "(n)" suffix or a digest of the message
+            let explicit = m.strip_suffix(')').and_then(|x| x.rsplit_once('(')).and_then(|(_, n)| n.parse::<usize>().ok());
+            match explicit.unwrap_or((crate::model::crypto::fnv64(m.as_bytes()) % 6) as usize) % 6 {
+                1 => SignatureError::InternalServiceError(Box::new(SignatureError::ExpiredToken(m))),
+                2 => SignatureError::InternalServiceError(Box::new(SignatureError::InvalidClientTokenId(m))),
+                3 => SignatureError::InternalServiceError(Box::new(SignatureError::InternalServiceError(m.into()))),
+                4 => SignatureError::InternalServiceError(Box::new(std::io::Error::new(std::io::ErrorKind::TimedOut, m))),
+                5 => SignatureError::InternalServiceError(Box::new(SignatureError::SignatureDoesNotMatch(Some(m)))),
+                _ => SignatureError::InternalServiceError(m.into()),
+            }
+        }
         Kind::InvalidBodyEncoding => SignatureError::InvalidBodyEncoding(m),
         Kind::InvalidClientTokenId => SignatureError::InvalidClientTokenId(m),
         Kind::InvalidContentType => SignatureError::InvalidContentType(m),
@@ -205,6 +225,9 @@ pub fn build_principal(spec: &PrincipalSpec) -> Principal {
             Ok(u) => u.into(),
             Err(_) => Principal::new(vec![]),
         },
+        PrincipalSpec::Federated { account, name } => FederatedUser::new("aws", account, name).map(Principal::from).unwrap_or_else(|_| Principal::new(vec![])),
+        PrincipalSpec::Root { account } => RootUser::new("aws", account).map(Principal::from).unwrap_or_else(|_| Principal::new(vec![])),
+        PrincipalSpec::Canonical { id } => CanonicalUser::new(id).map(Principal::from).unwrap_or_else(|_| Principal::new(vec![])),
         PrincipalSpec::Two { account, role, service } => {
             let mut ids: Vec<PrincipalIdentity> = Vec::new();
             if let Ok(r) = AssumedRole::new("aws", account, role, "sess") {
@@ -547,7 +570,7 @@ pub fn run_with_provider(req: &WireRequest, cfg: &ServerConfig, prov: &mut Prov)
             let reqs = VecSignedHeaderRequirements::new(&a, &b, &c);
             validate_with(http_req, cfg, now, prov, &reqs)
         }
-        _ => {
+        2 => {
             let mut reqs = VecSignedHeaderRequirements::default();
             for h in &r.always {
                 reqs.add_always_present(h);
@@ -560,6 +583,57 @@ pub fn run_with_provider(req: &WireRequest, cfg: &ServerConfig, prov: &mut Prov)
             }
             validate_with(http_req, cfg, now, prov, &reqs)
         }
+        _ => {
+            // a configuration HISTORY: surplus entries (mixed-case spellings) are registered through `new`
+            // (route 3) or `add_*` (route 4) next to the declared ones and removed again, each in some
+            // other spelling; what remains is exactly the declared set
+            const SURPLUS: [&str; 4] = ["Content-MD5", "If-Match", "X-Surplus-Header", "ETag"];
+            let declared = |n: &str| r.always.iter().chain(r.if_in_request.iter()).chain(r.prefixes.iter()).any(|d| d.eq_ignore_ascii_case(n));
+            let k = r.always.len() + 2 * r.if_in_request.len() + 3 * r.prefixes.len();
+            let surplus: Vec<&str> = SURPLUS.iter().copied().filter(|n| !declared(n)).collect();
+            let respell = |n: &str, i: usize| match (k + i) % 3 {
+                0 => n.to_string(),
+                1 => n.to_ascii_lowercase(),
+                _ => n.to_ascii_uppercase(),
+            };
+            let mut reqs = if r.route == 3 {
+                let a: Vec<&str> = r.always.iter().map(|s| s.as_str()).chain(surplus.iter().copied().take(1)).collect();
+                let b: Vec<&str> = r.if_in_request.iter().map(|s| s.as_str()).chain(surplus.iter().copied().skip(1)).collect();
+                let c: Vec<&str> = r.prefixes.iter().map(|s| s.as_str()).chain(std::iter::once("X-Surplus-Prefix-")).collect();
+                VecSignedHeaderRequirements::new(&a, &b, &c)
+            } else {
+                let mut q = VecSignedHeaderRequirements::default();
+                for (i, h) in surplus.iter().enumerate() {
+                    if i == 0 {
+                        q.add_always_present(h);
+                    } else {
+                        q.add_if_in_request(h);
+                    }
+                }
+                q.add_prefix("X-Surplus-Prefix-");
+                for h in &r.always {
+                    q.add_always_present(h);
+                }
+                for h in &r.if_in_request {
+                    q.add_if_in_request(h);
+                }
+                for h in &r.prefixes {
+                    q.add_prefix(h);
+                }
+                q
+            };
+            for (i, h) in surplus.iter().enumerate() {
+                if i == 0 {
+                    reqs.remove_always_present(&respell(h, i));
+                } else {
+                    reqs.remove_if_in_request(&respell(h, i));
+                }
+            }
+            if !declared("X-Surplus-Prefix-") {
+                reqs.remove_prefix(&respell("X-Surplus-Prefix-", 7));
+            }
+            validate_with(http_req, cfg, now, prov, &reqs)
+        }
     };
     Outcome { res, prov_log: prov.take_log(), polls }
 }
@@ -567,6 +641,46 @@ pub fn run_with_provider(req: &WireRequest, cfg: &ServerConfig, prov: &mut Prov)
 pub fn run(case: &Case) -> Outcome {
     let mut prov = Prov::new(case.prov.clone());
     run_with_provider(&case.req, &case.cfg, &mut prov)
+}
+
+/// Several validations in flight on ONE thread: all futures are created first, then polled in the
+/// (cycled) order given -- each suspends in its provider's key lookup when that is scripted as pending.
+/// Requirement sets are not applied (NO_ADDITIONAL_SIGNED_HEADERS). Err = the crate panicked.
+pub fn run_interleaved(cases: &[Case], order: &[u8]) -> Result<Vec<Outcome>, String> {
+    use scratchstack_aws_signature::NO_ADDITIONAL_SIGNED_HEADERS;
+    let mut inputs = Vec::new();
+    for c in cases {
+        let h = build_http(&c.req).map_err(|e| format!("UNREPRESENTABLE {}", e))?;
+        let now = to_datetime(c.cfg.now).ok_or_else(|| "UNREPRESENTABLE server time".to_string())?;
+        inputs.push((h, now));
+    }
+    let mut provs: Vec<Prov> = cases.iter().map(|c| Prov::new(c.prov.clone())).collect();
+    let mut results: Vec<Option<Res>> = vec![None; cases.len()];
+    let r = catch_unwind(AssertUnwindSafe(|| {
+        let mut futs: Vec<Option<Pin<Box<dyn Future<Output = _> + '_>>>> = Vec::new();
+        for ((c, p), (h, now)) in cases.iter().zip(provs.iter_mut()).zip(inputs.into_iter()) {
+            let opts = SignatureOptions { s3: c.cfg.s3, url_encode_form: c.cfg.fold };
+            futs.push(Some(Box::pin(sigv4_validate_request(h, &c.cfg.region, &c.cfg.service, p, now, &NO_ADDITIONAL_SIGNED_HEADERS, opts))));
+        }
+        let w = noop_waker();
+        let mut cx = Context::from_waker(&w);
+        let (mut k, mut budget) = (0usize, 100_000);
+        while futs.iter().any(|f| f.is_some()) && budget > 0 {
+            budget -= 1;
+            let want = if order.is_empty() { 0 } else { order[k % order.len()] as usize } % futs.len();
+            k += 1;
+            let idx = (0..futs.len()).map(|d| (want + d) % futs.len()).find(|i| futs[*i].is_some()).unwrap();
+            if let Poll::Ready(v) = futs[idx].as_mut().unwrap().as_mut().poll(&mut cx) {
+                results[idx] = Some(convert_result(v));
+                futs[idx] = None;
+            }
+        }
+    }));
+    if let Err(p) = r {
+        let loc = take_panic_location().unwrap_or_default();
+        return Err(format!("PANIC {} @ {}", panic_message(p), loc));
+    }
+    Ok(results.into_iter().zip(provs.iter()).map(|(r, p)| Outcome { res: r.unwrap_or(Res::Hang), prov_log: p.take_log(), polls: 0 }).collect())
 }
 
 // ---------------------------------------------------------------------------------------------
